@@ -228,7 +228,13 @@ Definition sql_model_agrees (metric : Z) (rows : list (Z * list Z)) (q : list Z)
    monotone).  Cosine: undefined when a vector is zero; otherwise cos = d / sqrt(na*nb) as a
    fixed-point number with 96 fractional bits (integer square root on 2^256-scaled radicand:
    error < 2^-90), compared with a tolerance of 2^-40 -- the implementation computes the key in
-   f64, so rows whose exact distances differ by less than rounding error may come in either order *)
+   f64, so rows whose exact distances differ by less than rounding error may come in either order.
+   Rows whose distance is undefined (a zero vector under <=>: the executor's key is NULL, which
+   the repaired comparator sorts first) are NOT constrained by the oracle -- the property text
+   speaks of "the exact distance", which such rows do not have: they may appear anywhere and
+   may occupy LIMIT slots; the rows that do have a distance must be in true distance order
+   among themselves, and a row with a distance that is left out must not be nearer than one
+   returned.  (Where NULL-distance rows actually go is pinned by model_agrees, not by spec_ok.) *)
 Inductive xkey := XUndef | XL2 (d2 : Z) | XCos (c : Z).
 Definition exact_key (metric : Z) (v q : list Z) : xkey :=
   if metric =? 0 then XL2 (sum_z (sq_diffs v q))
@@ -266,17 +272,6 @@ Definition sql_spec_ok (metric : Z) (rows : list (Z * list Z)) (q : list Z) (lim
   | _ => false
   end.
 
-Definition is_zero_vec (v : list Z) : bool := forallb (Z.eqb 0) v.
-(* recorded findings: 2 = LIMIT 0 over a non-empty table panics (heap[0] on an empty Vec);
-   1 = `<=>` with a zero vector among the rows: its distance is NULL, NULL compares Equal to
-   every key, so the comparison is not transitive and the other rows come out unordered *)
-Definition sql_known_class (metric : Z) (rows : list (Z * list Z)) (q : list Z) (limit : option Z) : Z :=
-  match limit, rows with
-  | Some 0, _ :: _ => 2
-  | _, _ =>
-      if (metric =? 1) && negb (is_zero_vec q) && existsb (fun r => is_zero_vec (snd r)) rows then 1 else 0
-  end.
-
 (* ------------------------------------------------------------------ verdicts *)
 Definition model_agrees (c : case) : bool :=
   match c with
@@ -297,11 +292,9 @@ Definition spec_ok (c : case) : bool :=
   | Sql metric rows q limit out => sql_spec_ok metric rows q limit out
   end.
 
-Definition known_class (c : case) : Z :=
-  match c with
-  | Sql metric rows q limit out => sql_known_class metric rows q limit
-  | _ => 0
-  end.
+(* no open finding: F-C24-1 (NULL distance keys) and F-C24-2 (LIMIT 0) are repaired in /repo
+   (34f5e9d, fec49c7); their witnesses run as ordinary cases on every check *)
+Definition known_class (c : case) : Z := 0.
 
 Fixpoint failures_from (i : Z) (cs : list case) : list (Z * bool * bool * Z) :=
   match cs with
